@@ -200,6 +200,9 @@ def run_unit(unit, repo, outdir, seed=0, features=None, canary=True, rlimit=None
         for feat, extra in cfg.get("prelude_if", {}).items():
             if feat in features:
                 preludes += [os.path.join(VERIF, "prelude", p) for p in extra]
+        for feat, extra in cfg.get("prelude_unless", {}).items():
+            if feat not in features:
+                preludes += [os.path.join(VERIF, "prelude", p) for p in extra]
         A = assemble_unit(unit, ud, cfg, ex, preludes, canary=False, features=features)
         A.unit = unit
     except Undecided as u:
